@@ -6,12 +6,28 @@ Open Scope N_scope.
 
 Inductive case :=
 | ToZCase (x y z : N) (ok : bool)
-| FromZCase (z x y : N).
+| FromZCase (z x y : N)
+| QuadCase (z : N) (obs : option (list N)).   (* pointindex.getQuadrantZs: the four keys, or None = panic *)
+
+Fixpoint all_some (l : list (option N)) : option (list N) :=
+  match l with
+  | [] => Some []
+  | Some a :: t => match all_some t with Some r => Some (a :: r) | None => None end
+  | None :: _ => None
+  end.
+
+Definition optlist_eqb (a b : option (list N)) : bool :=
+  match a, b with
+  | None, None => true
+  | Some x, Some y => Nat.eqb (length x) (length y) && forallb (fun p => N.eqb (fst p) (snd p)) (combine x y)
+  | _, _ => false
+  end.
 
 Definition check (c : case) : bool :=
   match c with
   | ToZCase x y z ok => let '(z', ok') := toZ x y in N.eqb z z' && Bool.eqb ok ok'
   | FromZCase z x y => let '(x', y') := fromZ z in N.eqb x x' && N.eqb y y'
+  | QuadCase z obs => optlist_eqb (all_some (getQuadrantZs z)) obs
   end.
 
 Definition mismatches (l : list case) : list N := mismatches_from check 0 l.
